@@ -125,7 +125,12 @@ func (c *Cluster) checkC02(n *SimNode, full bool) {
 
 func (c *Cluster) checkStoredBlock(n *SimNode, i int, blk *hg.Block, d *Delivery) {
 	got := bodyDigest(&blk.Body)
-	if got != d.Digest {
+	want := d.Digest
+	if d.AppError {
+		// babble never received the response: the stored block is the delivered body as it was
+		want = bodyDigest(&d.Block.Body)
+	}
+	if got != want {
 		what := "body"
 		full := d.Block
 		if string(blk.Body.StateHash) != string(d.Resp.StateHash) {
